@@ -7,6 +7,10 @@ Spec: specs/ModelGeomIdent.tla (EXTENDS ModelGeom).  A case = configuration of M
   twice           constructed a second time with the same arguments
   prior           the geometry object a distribution holds that was given a copy (x = prior.sample(); x.geometry)
   model_deepcopy  the MODEL is copy.deepcopy(model); the inputs carry the original's geometry object
+  default / other_identity / other_mapped   (round 8) a Samples object of PARAMETERS created without a geometry (default geometry), with an
+                  identity-like one, with a mapped one of another map - all of the model's parameter dimension: forward "converts the input to
+                  function values using the domain geometry of the model", so the columns are converted with the MODEL's par2fun; asserted for
+                  Samples of parameters, everything else with these geometries is recorded only
   other_*         a geometry that is NOT equal (other grid / other size): nothing asserted, what happens is recorded
 For every identity of the first group the outputs / gradients must be the spec's values (= those for `same`).
 An "equal" geometry the library's own `==` does not call equal is not asserted either (recorded).
@@ -21,6 +25,8 @@ SPEC = "ModelGeomIdent"
 EXTRA = ("ModelGeom.tla",)
 DEVIATIONS = [("GeometryMatchedByIdentity", "IdentOneInput"), ("GeometryMatchedByIdentity.wrt", "IdentWrt")]
 EQUAL = ("same", "copy", "deepcopy", "twice", "prior", "model_deepcopy")
+PAR_ONLY = ("default", "other_identity", "other_mapped")      # Samples of PARAMETERS carrying a geometry that is not the model's (round 8)
+DEVIATIONS += [("SamplesConvertedWithOwnGeometry", "IdentSamplesPar")]
 
 
 def start(ctx):
@@ -94,6 +100,12 @@ def carried_geometry(gid, g, geom):
         prior = cuqi.distribution.Gaussian(np.zeros(geom.par_dim), 1, geometry=copy.copy(geom))
         np.random.seed(0)
         return prior.sample().geometry
+    if gid == "default":
+        return "default"                 # no geometry handed to the Samples / CUQIarray constructor
+    if gid == "other_identity":
+        return cuqi.geometry.Continuous1D(g["k"])
+    if gid == "other_mapped":
+        return cuqi.geometry.MappedGeometry(cuqi.geometry.Continuous1D(g["k"]), map=lambda x: 2 * x, imap=lambda x: x / 2)
     if gid == "other_compatible":
         # same class and sizes, other grid: not equal
         if isinstance(geom, cuqi.geometry.StepExpansion):
@@ -104,6 +116,45 @@ def carried_geometry(gid, g, geom):
     if gid == "other_incompatible":
         return cuqi.geometry.Continuous1D(g["k"] + 1)
     return None
+
+
+def _check_samples_other_geometry(ctx, case, key, model, exp, cg, gid, lay, stats):
+    """Samples of PARAMETERS whose own geometry is not the model's (none given / identity-like / another map): the columns are parameters
+    of the MODEL - forward converts them with the model's domain geometry.  forward(S), model(S); the input stays as it was."""
+    from cuqi.samples import Samples
+    from cuqi.array import CUQIarray
+    from cuqiverif.modelgeom_real import close
+    from cuqiverif.props.c12 import _try
+    from cuqiverif.lingauss_common import layout
+    P = np.column_stack(exp["vs"])
+    want = np.column_stack(exp["outs"])
+    with warnings.catch_warnings():
+        warnings.simplefilter("ignore")
+        for tag, call in (("forward", lambda S: model.forward(S)), ("call", lambda S: model(S))):
+            raw = layout(P.copy(), lay)
+            S, err = _try(lambda: Samples(raw) if isinstance(cg, str) else Samples(raw, geometry=cg))
+            if err is not None:
+                stats.setdefault("samples_not_constructible", {})["samples/" + gid] = repr(err)[:80]
+                return
+            sig = "ident/forward/%s/rep=samples" % key
+            ctx.case(("ident", key, "samples", tag), facet="ident/%s" % gid)
+            out, err = _try(lambda: call(S))
+            if err is not None:
+                ctx.mismatch(sig + "/raised", case, "forward raised on a Samples object of parameters whose own geometry is %s (parameter dimension of the model)" % gid,
+                             want, repr(err))
+            elif not isinstance(out, Samples) or not close(np.asarray(out.samples, dtype=float), want):
+                ctx.mismatch(sig + "/value", case, "forward on a Samples object of PARAMETERS (own geometry: %s) is not column-wise H+(F(G v)) with G the par2fun of "
+                             "the MODEL's domain geometry" % gid, want, np.asarray(getattr(out, "samples", out)))
+            if not close(np.asarray(S.samples, dtype=float), P):
+                ctx.mismatch(sig + "/input_mutated", case, "forward changed the input Samples", P, np.asarray(S.samples))
+        # recorded only: a CUQIarray of parameters carrying that geometry
+        v = exp["vs"][0]
+        out, err = _try(lambda: model.forward(CUQIarray(v.copy(), is_par=True) if isinstance(cg, str) else CUQIarray(v.copy(), is_par=True, geometry=cg)))
+        o = stats.setdefault("not_asserted", {}).setdefault(gid, {})
+        k = "arr_par/" + ("raised" if err is not None else "as_with_the_models_par2fun" if close(np.asarray(out, dtype=float), exp["outs"][0]) else "other_value")
+        o[k] = o.get(k, 0) + 1
+    stats.setdefault("samples_of_parameters_with_another_geometry", {}).setdefault(gid, 0)
+    stats["samples_of_parameters_with_another_geometry"][gid] += 1
 
 
 def check_ident_case(ctx, ident, base, stats=None):
@@ -133,6 +184,8 @@ def check_ident_case(ctx, ident, base, stats=None):
         stats["identity_not_realisable"][gid + "/" + gkey(dom.g)] += 1
         return
     own_d, own_r = model.domain_geometry, model.range_geometry
+    if gid in PAR_ONLY:
+        return _check_samples_other_geometry(ctx, case, key, model, exp, cg, gid, lay, stats)
     asserted = gid in EQUAL
     if asserted:
         # "equal" as the library itself defines it; a distinct object (except for `same`)
